@@ -291,6 +291,14 @@ def w_shape_copies(idx):
                     mark(c_)
             mark(op["args"][0])
             for j, x in enumerate(w7.nodes):
+                if (j + 1) in srcs7:
+                    # ... and INSIDE it values that are not strings (a JSON model carries numbers and booleans; add_attribute takes
+                    # anything): a copy holds the same values, not their renderings
+                    x.add_attribute("scale", 2 + j)
+                    x.add_attribute("flag", j % 2 == 0)
+                    x.add_attribute("ratio", 0.5)
+                    x.add_extras("x:count", j)
+                    x.add_extras("x:none", None)
                 if (j + 1) not in srcs7:
                     x.add_extras("xml:lang", "es")
                     x.add_extras("x:note", "outside")
@@ -306,7 +314,8 @@ def w_shape_copies(idx):
                     return [k] + [y for c_ in t["from"]["kids"][k - 1] for y in pre7(c_)]
                 for sk, cp in zip(pre7(op["args"][0]), w7.nodes[nb7:]):
                     so = w7.n(sk)
-                    bad = [f for f in ("attributes", "extras", "content", "tail", "prefix", "name") if getattr(so, f) != getattr(cp, f)]
+                    typed = lambda d: {k: (type(v).__name__, v) for k, v in d.items()} if isinstance(d, dict) else d  # noqa: E731  (True == 1: compare types too)
+                    bad = [f for f in ("attributes", "extras", "content", "tail", "prefix", "name") if typed(getattr(so, f)) != typed(getattr(cp, f))]
                     if bad:
                         out.append(("copy:not-equal:fields-taken-from-outside-the-subtree:" + ",".join(bad),
                                     f"source node {sk}: " + "; ".join(f"{f} {getattr(so, f)!r} -> {getattr(cp, f)!r}" for f in bad), replay))
